@@ -1,10 +1,8 @@
+# Background sweep (vp run --with-repo -- bash tools/sweep.sh): quick tier at several seeds, then the thorough tier.
 sed -i "s#\"/repo/#\"$VP_RUN_REPO/#g" harness/Cargo.toml
 ./check setup 2>&1 | tail -2
-echo "=== QUICK seed 1"
-for p in C01 C02 C03 C04 C05 C06 C07 C08 C09 C10 C11 C12 C13 C14 C15 C16 C17 C18 C19 C20; do r=$(./check $p --tier quick 2>&1); c=$?; echo "QUICK seed=1 $p exit=$c $(echo "$r" | grep -E "^VIOLATION|signature=|INCONCLUSIVE|held on" | head -4 | tr "\n" " " | cut -c1-400)"; done
+ALL="C01 C02 C03 C04 C05 C06 C07 C08 C09 C10 C11 C12 C13 C14 C15 C16 C17 C18 C19 C20"
+echo "=== QUICK"
+for seed in 1 2 3 4; do for p in $ALL; do r=$(VERIF_SEED=$seed ./check $p --tier quick 2>&1); c=$?; echo "QUICK seed=$seed $p exit=$c $(echo "$r" | grep -E "^VIOLATION|signature=|INCONCLUSIVE" | head -4 | tr "\n" " " | cut -c1-500)"; done; done
 echo "=== THOROUGH"
-for p in C03 C04 C02 C01 C05 C14 C20 C17 C07 C08 C06 C11 C12 C13 C18 C19 C15 C10 C09 C16; do s=$(date +%s); r=$(./check $p --tier thorough 2>&1); c=$?; echo "THOROUGH $p exit=$c secs=$(( $(date +%s) - s )) $(echo "$r" | grep -E "^VIOLATION|signature=|INCONCLUSIVE|held on" | head -6 | tr "\n" " " | cut -c1-600)"; done
-echo "=== SOAK"
-for seed in 2 3 4; do for p in C01 C02 C03 C04 C05 C06 C07 C08 C09 C10 C11 C12 C13 C14 C15 C16 C17 C18 C19 C20; do r=$(VERIF_SEED=$seed ./check $p --tier quick 2>&1); c=$?; echo "SOAK seed=$seed $p exit=$c $(echo "$r" | grep -E "^VIOLATION|signature=|INCONCLUSIVE" | head -4 | tr "\n" " " | cut -c1-400)"; done; done
-echo "=== THOROUGH seed 2"
-for p in C03 C04 C02 C01 C20 C14 C05 C07 C08 C17; do s=$(date +%s); r=$(VERIF_SEED=2 ./check $p --tier thorough 2>&1); c=$?; echo "THOROUGH2 $p exit=$c secs=$(( $(date +%s) - s )) $(echo "$r" | grep -E "^VIOLATION|signature=|INCONCLUSIVE|held on" | head -6 | tr "\n" " " | cut -c1-600)"; done
+for p in C03 C04 C02 C01 C05 C14 C20 C17 C07 C08 C06 C11 C13 C12 C18 C19 C15 C10 C09 C16; do s=$(date +%s); r=$(VERIF_SEED=${THOROUGH_SEED:-1} ./check $p --tier thorough 2>&1); c=$?; echo "THOROUGH $p exit=$c secs=$(( $(date +%s) - s )) $(echo "$r" | grep -E "^VIOLATION|signature=|INCONCLUSIVE|held on" | head -6 | tr "\n" " " | cut -c1-700)"; done
